@@ -3,52 +3,78 @@
 //! Measured: one `BTreeMap::insert` + `remove` of a single element exhausts CBMC's memory after 3.5 min, so the
 //! real B-tree cannot be part of any executor harness.  Assumption listed in the evidence: BTreeMap behaves
 //! as a finite map with insert / remove / is_empty; at most two waitables are registered at once.
-pub struct SmallMap<K, V> {
-    slots: [Option<(K, V)>; 2],
+//!
+//! The two slots live in a `static`, not inside the map value (which sits in an `Arc` allocation): CBMC only
+//! constant-propagates a stored function pointer out of a statically typed object, and without that the call
+//! `(c.callback)(c.callback_ptr, code)` in `deliver_waitable_event` fans out over every address-taken two-argument
+//! function of the program (the `core::fmt` machinery) and does not finish.  Consequence, also listed: the executor
+//! harnesses build ONE task at a time (a fresh `SmallMap::default()` empties the slots).
+use core::marker::PhantomData;
+
+pub trait StaticSlots: Sized + 'static {
+    fn slots() -> &'static mut [Option<(u32, Self)>; 2];
 }
-impl<K, V> Default for SmallMap<K, V> {
-    fn default() -> Self {
-        SmallMap { slots: [None, None] }
+static mut CABI_SLOTS: [Option<(u32, super::super::CabiWaitable)>; 2] = [None, None];
+impl StaticSlots for super::super::CabiWaitable {
+    fn slots() -> &'static mut [Option<(u32, Self)>; 2] {
+        unsafe { &mut *core::ptr::addr_of_mut!(CABI_SLOTS) }
     }
 }
-impl<K: PartialEq, V> SmallMap<K, V> {
-    pub fn insert(&mut self, key: K, value: V) -> Option<V> {
-        if let Some((k, _)) = &self.slots[0] {
+
+pub struct SmallMap<K, V> {
+    _m: PhantomData<(K, V)>,
+}
+impl<V: StaticSlots> Default for SmallMap<u32, V> {
+    fn default() -> Self {
+        let s = V::slots();
+        s[0] = None;
+        s[1] = None;
+        SmallMap { _m: PhantomData }
+    }
+}
+impl<V: StaticSlots> SmallMap<u32, V> {
+    pub fn insert(&mut self, key: u32, value: V) -> Option<V> {
+        let slots = V::slots();
+        if let Some((k, _)) = &slots[0] {
             if *k == key {
-                return self.slots[0].replace((key, value)).map(|(_, v)| v);
+                return slots[0].replace((key, value)).map(|(_, v)| v);
             }
         }
-        if let Some((k, _)) = &self.slots[1] {
+        if let Some((k, _)) = &slots[1] {
             if *k == key {
-                return self.slots[1].replace((key, value)).map(|(_, v)| v);
+                return slots[1].replace((key, value)).map(|(_, v)| v);
             }
         }
-        if self.slots[0].is_none() {
-            self.slots[0] = Some((key, value));
+        if slots[0].is_none() {
+            slots[0] = Some((key, value));
             return None;
         }
-        if self.slots[1].is_none() {
-            self.slots[1] = Some((key, value));
+        if slots[1].is_none() {
+            slots[1] = Some((key, value));
             return None;
         }
         panic!("SmallMap: more than two waitables registered at once (model bound)");
     }
-    pub fn remove(&mut self, key: &K) -> Option<V> {
-        if matches!(&self.slots[0], Some((k, _)) if k == key) {
-            return self.slots[0].take().map(|(_, v)| v);
+    pub fn remove(&mut self, key: &u32) -> Option<V> {
+        let slots = V::slots();
+        if matches!(&slots[0], Some((k, _)) if k == key) {
+            return slots[0].take().map(|(_, v)| v);
         }
-        if matches!(&self.slots[1], Some((k, _)) if k == key) {
-            return self.slots[1].take().map(|(_, v)| v);
+        if matches!(&slots[1], Some((k, _)) if k == key) {
+            return slots[1].take().map(|(_, v)| v);
         }
         None
     }
     pub fn is_empty(&self) -> bool {
-        self.slots[0].is_none() && self.slots[1].is_none()
+        let slots = V::slots();
+        slots[0].is_none() && slots[1].is_none()
     }
     pub fn len(&self) -> usize {
-        self.slots[0].is_some() as usize + self.slots[1].is_some() as usize
+        let slots = V::slots();
+        slots[0].is_some() as usize + slots[1].is_some() as usize
     }
-    pub fn contains_key(&self, key: &K) -> bool {
-        matches!(&self.slots[0], Some((k, _)) if k == key) || matches!(&self.slots[1], Some((k, _)) if k == key)
+    pub fn contains_key(&self, key: &u32) -> bool {
+        let slots = V::slots();
+        matches!(&slots[0], Some((k, _)) if k == key) || matches!(&slots[1], Some((k, _)) if k == key)
     }
 }
